@@ -186,6 +186,16 @@ func (d Dec) InRange() bool {
 	return lead >= -130 && lead <= 125
 }
 
+// MagnitudeInRange reports whether the magnitude of d lies within 1E-130 .. 9.99…E+125 (or d is zero),
+// whatever its number of digits.
+func (d Dec) MagnitudeInRange() bool {
+	if d.Mant.Sign() == 0 {
+		return true
+	}
+	lead := d.Exp + d.Digits() - 1
+	return lead >= -130 && lead <= 125
+}
+
 // NumEqual compares two numerals by value; unparsable numerals compare by text.
 func NumEqual(a, b string) bool {
 	da, ea := ParseDec(a)
